@@ -113,6 +113,26 @@ def oversize_cancelled(rng, k, lim):
     return scn.line("scn", "o%d" % k, s, max_=lim, extra="nt=1 family=oversize-cancelled expect=%s" % ",".join(exp))
 
 
+def prefix_widths(rng, k):
+    """frames whose content length sits at the edges of every msgpack integer width the prefix can take (fixint / 8 / 16 /
+    32 bit, signed and unsigned): written whole, and a receiver with the same maximum accepts them"""
+    tgt = rng.choice([127, 128, 129, 255, 256, 257, 32767, 32768, 32769, 40000, 65535, 65536, 65537, 70000])
+    tgt += rng.choice([0, 0, -1, 1])
+    kind = rng.choice(["call", "notify", "reply"])
+    s = [scn.notify(1, pad=2)]
+    exp = ["1:ok"]
+    if kind == "call":
+        pad = scn.pad_for_len(2, tgt, "call", seq=0) or tgt
+        s += [scn.call(2, pad=pad), scn.cancel(2)]; exp.append("2:ctx")
+    elif kind == "notify":
+        pad = scn.pad_for_len(2, tgt, "notify") or tgt
+        s += [scn.notify(2, pad=pad)]; exp.append("2:ok")
+    else:
+        s += [scn.feed_call(7, 2), "waithandlers/1", scn.finish(0, 2, pad=tgt - 12), "settle"]
+    s += [scn.notify(3, pad=1), "settle"]; exp.append("3:ok")
+    return scn.line("scn", "w%d" % k, s, extra="nt=1 family=prefix-widths expect=%s" % ",".join(exp))
+
+
 def explore(ctx):
     rng, tier = ctx["rng"], ctx["tier"]
     if ctx.get("replay"):
@@ -125,6 +145,8 @@ def explore(ctx):
                 lines += boundary(rng, i, lim, shape)
         for k in range({"quick": 12, "thorough": 150, "search": 40}[tier]):
             lines.append(big_cancel(rng, k))
+        for k in range({"quick": 24, "thorough": 300, "search": 60}[tier]):
+            lines.append(prefix_widths(rng, k))
         for k in range({"quick": 20, "thorough": 300, "search": 60}[tier]):
             lines.append(oversize_cancelled(rng, k, rng.choice([100, 200, 300, 1024])))
         n = {"quick": 250, "thorough": 5000, "search": 1000}[tier]
